@@ -331,6 +331,7 @@ fn gen_history(rng: &mut Rng) -> Vec<Op> {
             user_name: "u".into(),
             challenge: rng.bytes(16),
             algs: vec![-7],
+            unknown_type_for_unsupported: false,
             cd: CdMode::Default,
             uv: Some(uvr(rng)),
             resident_key: None,
@@ -381,6 +382,7 @@ fn gen_history(rng: &mut Rng) -> Vec<Op> {
             rp_id: Some("example.com".into()),
             challenge: rng.bytes(16),
             allow,
+            allow_types: 0,
             cd: CdMode::Default,
             uv: uvr(rng),
             prf,
